@@ -36,9 +36,11 @@ class DictCell:
         self.vlist = vlist
         self.default_empty = default_empty      # defaultdict(lambda: [])
         self.vpytype = vpytype
+        self.aliases = ()       # (key term, list cell loc): the list object stored under that key lives in that cell
 
     def replace(self, **kw):
         c = DictCell(self.keys, self.vals, self.kkind, self.vkind, self.vlist, self.default_empty, self.vpytype)
+        c.aliases = self.aliases
         for k, v in kw.items():
             setattr(c, k, v)
         return c
@@ -115,6 +117,18 @@ class State:
         self.pc.append(f)
 
     # -- list cells (possibly derived through a dict value)
+    def dict_list_term(self, dloc, kt):
+        """content of the list object currently stored under key kt in a dict of lists"""
+        d = self.heap[dloc]
+        term = z3.Select(d.vals, kt)
+        for ak, loc in d.aliases:
+            cur = self.heap[loc].term
+            if ak.eq(kt):
+                term = cur
+            else:
+                term = z3.If(kt == ak, cur, term)
+        return term
+
     def list_cell(self, loc):
         if isinstance(loc, DictValLoc):
             d = self.heap[loc.dloc]
